@@ -154,6 +154,112 @@ def _protected_callers(lf) -> set:
     return out
 
 
+def _toplevel_guard_locals(p2, inv) -> dict:
+    """locals of _lua_invoke that record, BEFORE the invocation's own environment is pushed, whether an enclosing invocation
+    exists: {name: True if the local is true for a nested invocation, False if it is true for a top-level one}.  Recognised:
+    `local nested = _python_top_env() ~= nil` / `local top = _python_top_env() == nil` / `local outer = _python_top_env()`"""
+    out = {}
+    push_line = None
+    for st in inv.body:
+        if st.kind == "callstat" and L.text(st.call.func) == "_python_append_env":
+            push_line = st.line
+            break
+    for st in inv.body:
+        if st.kind != "local" or len(st.names) != 1 or not st.exprs:
+            continue
+        if push_line is not None and st.line > push_line:
+            continue
+        e = st.exprs[0]
+        while e.kind == "paren":
+            e = e.expr
+        if e.kind == "call" and L.text(e.func) == "_python_top_env" and not e.args:
+            out[st.names[0]] = True   # truthy iff an enclosing environment exists
+        elif e.kind == "binop" and e.op in ("~=", "==") and {e.left.kind, e.right.kind} == {"call", "nil"}:
+            c = e.left if e.left.kind == "call" else e.right
+            if L.text(c.func) == "_python_top_env" and not c.args:
+                out[st.names[0]] = (e.op == "~=")
+    return out
+
+
+def _only_when_top_level(cond, guards: dict) -> bool:
+    """does the if-condition hold only for a top-level invocation?  (`not nested`, `top`, `nested == false`, `outer == nil`)"""
+    while cond.kind == "paren":
+        cond = cond.expr
+    if cond.kind == "unop" and cond.op == "not" and cond.operand.kind == "name":
+        return guards.get(cond.operand.id) is True
+    if cond.kind == "name":
+        return guards.get(cond.id) is False
+    if cond.kind == "binop" and cond.op == "==" and cond.left.kind == "name" and cond.right.kind in ("nil", "false"):
+        return guards.get(cond.left.id) is True
+    if cond.kind == "binop" and cond.op == "and":
+        return _only_when_top_level(cond.left, guards) or _only_when_top_level(cond.right, guards)
+    return False
+
+
+def _guarded_calls(inv, name: str, guards: dict) -> list:
+    """[(call statement, unconditional?, only-when-top-level?)] for the statements `name(...)` of _lua_invoke"""
+    out = []
+
+    def rec(stmts, conds):
+        for st in stmts:
+            if st.kind == "callstat" and st.call.kind == "call" and L.text(st.call.func) == name:
+                out.append((st, not conds, any(_only_when_top_level(c, guards) for c in conds)))
+            elif st.kind == "if":
+                for i, (cnd, body) in enumerate(st.clauses):
+                    rec(body, conds + ([cnd] if i == 0 else [cnd, None]))
+                if st.orelse is not None:
+                    rec(st.orelse, conds + [None])
+            elif st.kind in ("do", "while", "repeat", "fornum", "forin"):
+                rec(getattr(st, "body", []), conds + [None])
+
+    def clean(conds):
+        return [c for c in conds if c is not None]
+
+    rec(inv.body, [])
+    return [(st, unc, top) for st, unc, top in out]
+
+
+def rule_r8(ctx) -> RuleResult:
+    """_lua_invoke is re-entrant: frame:preprocess / expandTemplate / callParserFunction / extensionTag re-enter the expander,
+    which runs {{#invoke:}} inside the running invocation.  There is ONE debug hook per Lua state, so what the nested
+    invocation does to it is what the enclosing one is left with: removing the hook on return leaves the rest of the outer
+    function without any time limit, re-arming it restarts the clock (a loop that invokes something before every deadline never
+    ends).  Decided: every statement of _lua_invoke that sets or clears the hook is executed for a top-level invocation only
+    (guarded by a local computed from _python_top_env() before the invocation's own environment is pushed)."""
+    rr = RuleResult("C07.R8", "a nested invocation neither removes nor restarts the time limit of the enclosing one", min_instances=2)
+    p2 = ctx.lua.file("_sandbox_phase2.lua")
+    inv = p2.func_named("_lua_invoke")
+    if inv is None:
+        raise AnalysisError("_lua_invoke vanished")
+    # re-entrancy is a fact of the Python bridge: a callback handed to Lua reaches call_lua_sandbox again
+    from ..core.callgraph import CallGraph
+    cg = CallGraph(ctx.index)
+    callbacks = [e for e in cg.edges.get("luaexec.call_lua_sandbox", ()) if e.startswith("luaexec.call_lua_sandbox.make_frame.")]
+    reentrant = any("luaexec.call_lua_sandbox" in cg.closure([cb]) for cb in callbacks)
+    rr.instances["frame_callbacks_reaching_call_lua_sandbox"] = sorted(cb.split(".")[-1] for cb in callbacks if "luaexec.call_lua_sandbox" in cg.closure([cb]))
+    rr.instances["reentrant_through_frame_callbacks"] = bool(reentrant)
+    if not reentrant:
+        rr.ok("_lua_invoke", "not re-entrant: no callback handed to Lua reaches call_lua_sandbox")
+        return rr
+    guards = _toplevel_guard_locals(p2, inv)
+    sites = [("_lua_clear_timeout_hook", "removes"), ("_lua_set_timeout", "restarts")]
+    n = 0
+    for name, verb in sites:
+        for st, unconditional, top_only in _guarded_calls(inv, name, guards):
+            n += 1
+            if top_only:
+                rr.ok("_lua_invoke", "{}(...) only for a top-level invocation".format(name))
+            else:
+                rr.bad(Finding("C07.R8", P2, "_lua_invoke", L.text(st.call),
+                               "an #invoke made from inside a running invocation (frame:preprocess('{{{{#invoke:...}}}}') and the other frame "
+                               "methods) {} the one debug hook of the Lua state: the enclosing function {}".format(
+                                   verb, "continues without any time limit" if verb == "removes" else "gets a fresh time budget after every nested call"),
+                               st.line))
+    if n == 0:
+        raise AnalysisError("_lua_invoke: no statement sets or clears the timeout hook (2 confirmed by hand)")
+    return rr
+
+
 def rule_r3(ctx) -> RuleResult:
     rr = RuleResult("C07.R3", "the time limit is armed before any module code runs", min_instances=3)
     p2 = ctx.lua.file("_sandbox_phase2.lua")
@@ -161,6 +267,18 @@ def rule_r3(ctx) -> RuleResult:
     if inv is None:
         raise AnalysisError("_lua_invoke vanished")
     idx = _top_level_call_index(inv, "_lua_set_timeout")
+    if idx is None:
+        # `if not nested then _lua_set_timeout(timeout) end`: a nested invocation runs under the hook armed by the outermost one (R8)
+        guards = _toplevel_guard_locals(p2, inv)
+        for i, st in enumerate(inv.body):
+            if st.kind == "if" and len(st.clauses) == 1 and st.orelse is None and _only_when_top_level(st.clauses[0][0], guards) \
+                    and len(st.clauses[0][1]) == 1 and st.clauses[0][1][0].kind == "callstat" \
+                    and L.text(st.clauses[0][1][0].call.func) == "_lua_set_timeout":
+                idx = i
+                inv = type(inv)("function", inv.line, params=inv.params, vararg=getattr(inv, "vararg", False),
+                                body=inv.body[:i] + [st.clauses[0][1][0]] + inv.body[i + 1:], name=getattr(inv, "name", None))
+                rr.informational.append({"arming": "guarded by a top-level test; nested invocations keep the enclosing hook"})
+                break
     if idx is None:
         rr.bad(Finding("C07.R3", P2, "_lua_invoke", "_lua_set_timeout(timeout)",
                        "the hook is not armed by an unconditional top-level statement of _lua_invoke", inv.line))
@@ -586,4 +704,4 @@ def rule_r7(ctx) -> RuleResult:
 
 def run(ctx) -> list:
     marker = _marker(ctx)
-    return [rule_r1(ctx), rule_r2(ctx, marker), rule_r3(ctx), rule_r4(ctx, marker), rule_r5(ctx, marker), rule_r6(ctx), rule_r7(ctx)]
+    return [rule_r1(ctx), rule_r2(ctx, marker), rule_r3(ctx), rule_r4(ctx, marker), rule_r5(ctx, marker), rule_r6(ctx), rule_r7(ctx), rule_r8(ctx)]
